@@ -5950,6 +5950,11 @@ class CodegenCtx:
             return self._generate_condition_point_body(state)
         result = Outputter()
 
+        if self._is_postponed_done_state(state):
+            # with strict done tokens the DONE that a transition into this state would have returned is reported here instead
+            result.add(f"return {self.program_name.upper()}_DONE;")
+            return result.value()
+
         # Split transitions into else groups
         try:
             actual_else_transition = next(state.all_transitions_for((DFTransition.Else,)))
@@ -6035,10 +6040,17 @@ class CodegenCtx:
         result.add("}")
         return result.value()
 
+    def _is_postponed_done_state(self, state: DFState):
+        return ProgramData.do(ProgramFlag.STRICT_DONE_TOKEN_GENERATION) and state in self.dfa.accepting_states and all(x.error_handling for x in state.transitions)
+
     def _generate_end_switch_body(self, state: DFState):
         if isinstance(state, DFConditionPoint):
             return self._generate_condition_point_body(state, True)
         result = Outputter()
+
+        if self._is_postponed_done_state(state):
+            result.add(f"return {self.program_name.upper()}_DONE;")
+            return result.value()
 
         # Find all transitions that operate on End
         unconditional_end_transition = state[DFTransition.End]
